@@ -224,7 +224,11 @@ def decoding(ctx, n_cases):
         grp = nap.TsGroup({k: nap.Ts(v) for k, v in units.items()}, time_support=nap.IntervalSet(0.0, 20.0))
         unit, f = rng.choice([("s", 1.0), ("ms", 1e3), ("us", 1e6)])
         with_feat = c % 2 == 0
-        feat = nap.Tsd(np.arange(0, 20, 0.5), npr.uniform(0, nb, size=40)) if with_feat else None
+        fvals = npr.uniform(0, nb, size=40)
+        if c % 4 == 0:
+            # feature samples exactly ON interior bin edges (integers) and on the lowest edge: np.histogram's rule (right-open bins) decides
+            fvals[::3] = npr.randint(0, nb, size=len(fvals[::3])).astype(float)
+        feat = nap.Tsd(np.arange(0, 20, 0.5), fvals) if with_feat else None
         inp = dict(level="decode_1d", nb_bins=nb, keys=keys, bin_size=bs, unit=unit, prior=with_feat, epoch=[list(map(float, ep.start)), list(map(float, ep.end))])
         ctx.case(("d1", c, nb, nu, bs, unit, with_feat), inp if c % 17 == 0 else None)
         form = c % 3
